@@ -121,18 +121,25 @@ func (p *RunnableProcessor) Process(ctx context.Context, records []opencdc.Recor
 				outRecs[i] = sdk.SingleRecord(rec)
 			}
 		} else if len(passthroughRecordIndexes) > 0 {
-			tmp := make([]sdk.ProcessedRecord, len(outRecs)+len(passthroughRecordIndexes))
-			prevIndex := -1
-			for i, index := range passthroughRecordIndexes {
-				// TODO index-i can be out of bounds if the processor returns
-				//  fewer records than the input.
-				copy(tmp[prevIndex+1:index], outRecs[prevIndex-i+1:index-i])
-				tmp[index] = sdk.SingleRecord(records[index])
-				prevIndex = index
-			}
-			// if the last index is not the last record, copy the rest
-			if passthroughRecordIndexes[len(passthroughRecordIndexes)-1] != len(tmp)-1 {
-				copy(tmp[prevIndex+1:], outRecs[prevIndex-len(passthroughRecordIndexes)+1:])
+			// Merge slot by slot: slot i of the result belongs to records[i]. A
+			// passthrough record goes back to its own slot, every other slot takes
+			// the processor's next result. If the processor returned fewer results
+			// than it was given records, the merged result stops at the first slot
+			// that has no result, so what is returned stays aligned with the input
+			// (the missing tail is a short result).
+			tmp := make([]sdk.ProcessedRecord, 0, len(outRecs)+len(passthroughRecordIndexes))
+			nextPassthrough, nextOut := 0, 0
+			for i := range records {
+				if nextPassthrough < len(passthroughRecordIndexes) && passthroughRecordIndexes[nextPassthrough] == i {
+					tmp = append(tmp, sdk.SingleRecord(records[i]))
+					nextPassthrough++
+					continue
+				}
+				if nextOut >= len(outRecs) {
+					break
+				}
+				tmp = append(tmp, outRecs[nextOut])
+				nextOut++
 			}
 			outRecs = tmp
 		}
